@@ -33,6 +33,11 @@ Definition reset_ok (f : field) : bool :=
   | Some ConfigOnce =>
       negb (mem f run_mutable) && forallb (String.eqb "initNativeFuncs") (writers_of f) &&
       mem "initNativeFuncs" calls_setExecuteConfig && mem f nil_tested
+  | Some LineShadow =>
+      (* written by setLine only (which also sets the record), and resetCore empties the record *)
+      forallb (String.eqb "setLine") (writers_of f) && mem "setLine" (writers_of "line") &&
+      mem "line" (must_fields fn_resetCore) && mem "haveFields" (must_fields fn_resetCore) &&
+      mem "fields" (must_fields fn_resetCore) && mem "reparseCSV" (must_fields fn_resetCore)
   | Some Cache | Some Scratch => true
   | None => false
   end.
